@@ -9,6 +9,10 @@ import (
 	"github.com/spf13/cobra"
 )
 
+// Mean of the exponential distribution of the branch lengths of a star tree
+// (not the option variable of "brlen setrand --mean")
+const startreeMeanLength = 0.1
+
 func starTree(nbtrees int, nbtips int, output string) error {
 	var f *os.File
 	var err error
@@ -29,7 +33,7 @@ func starTree(nbtrees int, nbtips int, output string) error {
 			return err
 		}
 		for _, e := range t.Edges() {
-			e.SetLength(gostats.Exp(1.0 / setlengthmean))
+			e.SetLength(gostats.Exp(1.0 / startreeMeanLength))
 		}
 
 		f.WriteString(t.Newick() + "\n")
